@@ -26,7 +26,8 @@ def gen_tree(seed, tier):
     for i in range(ch.randint("workload", "ncalls", 1, 20)):
         leaf = ch.randrange("workload", ("leaf", i), n)
         style = ch.weighted("workload", ("style", i), [("needed", 5), ("needed-forged-aux", 2), ("needed-forged-leaf", 2), ("needed-missing", 1.5),
-                                                       ("random-subset", 2), ("all", 0.5), ("extra-garbage-index", 0.5)])
+                                                       ("random-subset", 2), ("all", 0.5), ("extra-garbage-index", 0.5),
+                                                       ("random-subset-forged-leaf", 1.5)])
         ops.append(["set", leaf, style, ch.randrange("workload", ("which", i), 1 << 30), ch.randrange("workload", ("order", i), 1 << 30),
                     ch.chance("workload", ("incl", i), 0.5)])
     return {"engine": "structsim", "seed": seed, "cfg": {"leaves": n, "datapat": ch.randint("config", "pat", 1, 1 << 30)}, "ops": ops}
@@ -67,7 +68,7 @@ def exec_tree(case):
             if style == "needed-missing" and needed:
                 del offered[needed[which % len(needed)]]
                 missing = True
-        elif style == "random-subset":
+        elif style in ("random-subset", "random-subset-forged-leaf"):
             for i in range(len(ref)):
                 if (which >> (i % 30)) & 1:
                     offered[i] = ref[i]
@@ -77,7 +78,9 @@ def exec_tree(case):
             for i in needed:
                 offered[i] = ref[i]
         leafval = leaves[leaf]
-        if style == "needed-forged-leaf":
+        if style in ("needed-forged-leaf", "random-subset-forged-leaf"):
+            # (the leaf may already be validated: the batch then contradicts a value the tree holds, while also
+            # carrying genuine values for nodes it does not know yet)
             leafval = hashlib.sha256(b"forged-leaf" + leafval).digest()
             forged = True
         # insertion order of the dict is part of the history
@@ -87,7 +90,7 @@ def exec_tree(case):
         if order & 1:
             keys.reverse()
         hashes = {i: offered[i] for i in keys}
-        lv = {leaf: leafval} if (include_leaf or style.startswith("needed")) else {}
+        lv = {leaf: leafval} if (include_leaf or style.startswith("needed") or style == "random-subset-forged-leaf") else {}
         before = list(t)
         ncalls += 1
         try:
@@ -101,6 +104,11 @@ def exec_tree(case):
             outcome = "notenough"
         except IndexError:
             outcome = "index"
+        except Exception as e:
+            # not one of the documented rejections: callers (the downloader) do not catch it
+            outcome = "error-" + type(e).__name__
+            bad("unexpected-exception", "set_hashes raised %r instead of accepting or rejecting with BadHashError/NotEnoughHashesError/IndexError "
+                "(leaf %d, style %s, n=%d)" % (e, leaf, style, n))
         probe("set-" + outcome)
         all_genuine = all(ref[i] == h for i, h in hashes.items() if i < len(ref)) and all(leaves[j] == h for j, h in lv.items())
         if outcome == "ok":
@@ -136,7 +144,7 @@ def gen_spans(seed, tier):
     nops = ch.randint("workload", "nops", 5, 200)
     for i in range(nops):
         k = ch.weighted("workload", ("k", i), [("add", 6), ("remove", 4), ("and", 1), ("sub", 1), ("plus", 1), ("contains", 2), ("dadd", 6), ("dremove", 3),
-                                               ("dget", 4), ("dpop", 3), ("iadd", 0.7), ("isub", 0.7)])
+                                               ("dget", 4), ("dpop", 3), ("iadd", 0.7), ("isub", 0.7), ("dreget", 2.5), ("doverlap", 1.5)])
         ops.append([k, ch.randrange("workload", ("s", i), 300), ch.pick("workload", ("l", i), [1, 1, 2, 3, 5, 10, 30, 100]),
                     ch.randrange("workload", ("x", i), 1 << 30)])
     return {"engine": "structsim", "seed": seed, "cfg": {}, "ops": ops}
@@ -155,8 +163,14 @@ def exec_spans(case):
     def bad(clause, detail):
         viol.append({"clause": "C37." + clause, "sig": "C37." + clause, "detail": detail})
 
+    held = []       # results of earlier set operations and their reference sets: each is an object of its own
+
     def other_from(x):
         o, om = Spans(), set()
+        if x % 5 == 0:
+            return o, om                                  # nothing to add / subtract / intersect with
+        if x % 7 == 0:
+            return Spans(0, 400), set(range(400))         # covers the whole range in use
         for j in range(3):
             st = (x >> (j * 9)) % 300
             ln = 1 + (x >> (j * 7)) % 40
@@ -178,11 +192,27 @@ def exec_spans(case):
                 got[st + j] = b
         if got != dm or ds.len() != len(dm):
             bad("dataspans", "after %s the byte buffer holds %d bytes, the reference map %d (or contents differ)" % (why, ds.len(), len(dm)))
+        for hi, (hr, hm) in enumerate(held):
+            if set(hr.each()) != hm:
+                bad("result-aliased", "after %s the result of an earlier set operation (held #%d) no longer equals its reference set: "
+                    "it shares state with another object" % (why, hi))
+                break
         if set(ds.get_spans().each()) != set(dm):
             bad("dataspans-spans", "get_spans() disagrees with the stored bytes after %s" % why)
         ds.assert_invariants()
+    last_get = [None]
     for opi, (k, st, ln, x) in enumerate(case["ops"]):
         why = "op %d %r" % (opi, (k, st, ln))
+        if k == "dreget":          # ask again for exactly the range asked for last (the downloader re-reads header fields)
+            k = "dget"
+            if last_get[0]:
+                st, ln = last_get[0]
+        elif k == "doverlap":      # new bytes over (part of) the range read last
+            k = "dadd"
+            if last_get[0]:
+                st = last_get[0][0] + (x % max(1, last_get[0][1]))
+        if k == "dget":
+            last_get[0] = (st, ln)
         try:
             if k == "add":
                 s.add(st, ln)
@@ -210,6 +240,19 @@ def exec_spans(case):
                 else:
                     s -= o
                     m -= om
+                if k in ("and", "sub", "plus"):
+                    held.append((r, set(r.each())))
+                    del held[:-3]
+                    if x & 1 and held:
+                        # the caller goes on to modify the result in place
+                        hr, hm = held[(x >> 3) % len(held)]
+                        if x & 2:
+                            hr.add(st, ln)
+                            hm |= set(range(st, st + ln))
+                        else:
+                            hr.remove(st, ln)
+                            hm -= set(range(st, st + ln))
+                        probe("held-result-mutated")
             elif k == "contains":
                 got = (st, ln) in s
                 want = all(i in m for i in range(st, st + ln))
